@@ -10,7 +10,7 @@ PROOF_FILES = ["C06Parse", "C06Lists", "C06Classes", "C06Color", "C06Entries", "
 THEOREM = ("Ufo2ft.C06.C06_offset / C06_candidate / C06_sound / C06_ligature / C06_complete / C06_holds / C06_error / "
            "groups_no_shared_mark / colorGraph_is_proper / firstAvailable_smallest / C06_parse_shape / C06_parse_mark / "
            "C06_parse_lig / C06_parse_null / C06_candidate_order_partial / C06_offset_general / C06_ctx_offset / C06_ctx_holds / "
-           "C06_frame / C06_plain_lookups_have_no_contextual_anchor / C06_ctx_split / C06_ctx_error / C06_modelX_error")
+           "C06_frame / C06_plain_lookups_have_no_contextual_anchor / C06_ctx_split / C06_ctx_error / C06_modelX_error / C06_objectLibs_old_counterexample")
 N = {"quick": 400, "thorough": 12000}
 RULE = ("random 'anchor fonts': 2-10 glyphs in the roles base / ligature / mark / Indic-Khmer base+mark / odd, each with a random "
         "set of named anchors (plain, '_'-prefixed, numbered 'x_N' incl. gaps, key-less '_N', 'top.alt'-style, keys ending in a digit, "
@@ -19,7 +19,7 @@ RULE = ("random 'anchor fonts': 2-10 glyphs in the roles base / ligature / mark 
         "from a GDEF table in the feature file (with deliberately inconsistent categories), Devanagari/Kannada/Khmer/multi-script code "
         "points with or without languagesystem statements (abvm/blwm routing), ufoLib2 and defcon; in a third of the fonts contextual anchors "
         "('*key', '*key.alt', '*key_N' with object-lib data GPOS_Context = '* X' / 'X * Y' / '* [X Y]' / '* @class' / 'lookupflag ...; * X', also "
-        "empty libs, libs without the key, identifiers without lib entry, two-';' contexts, object libs on plain anchors).  The font is compiled with compileTTF "
+        "empty libs, libs without the key, identifiers without lib entry, identifiers on glyphs without public.objectLibs, two-';' contexts, object libs on plain anchors).  The font is compiled with compileTTF "
         "and the MarkFeatureWriter, saved and reloaded; harness/gpos.py evaluates MarkBasePos/MarkLigPos/MarkMarkPos for EVERY ordered "
         "(glyph, glyph, component) triple, per feature (abvm, blwm, mark, mkmk) and over all four in lookup order (last wins).  The model's "
         "tables must be equal; `holds` (offset = qround(base) - qround(mark) of a matching source anchor pair; nothing else attached; every "
@@ -180,7 +180,7 @@ def gen(rng, n, mode):
 def _add_contextual(rng, case, keys, search):
     """contextual anchors: '*key[_N][.suffix]' with object-lib data {"GPOS_Context": "<context>"} (4th element of the anchor:
     {"ctx": str} | "nokey" (non-empty lib without the key) | "empty" ({}: counts as no data) | "idonly" (identifier, no entry)
-    | "idnolib" (identifier on a glyph without public.objectLibs)); contexts name glyphs / a class of the font"""
+    | "idnolib" (identifier on a glyph without public.objectLibs: no lib data)); contexts name glyphs / a class of the font"""
     glyphs = case["glyphs"]
     names = [g["name"] for g in glyphs]
     if len(names) < 2:
@@ -220,10 +220,16 @@ def _add_contextual(rng, case, keys, search):
             a = rng.choice(an)
             if len(a) == 3:
                 a.append(rng.choice([{"ctx": rng.choice(pool)}, "idonly", "nokey"]))      # object lib on a plain anchor: ignored
-    if rng.random() < (0.04 if not search else 0.0):
-        cands = [g for g in glyphs if g["anchors"] and all(len(a) == 3 for a in g["anchors"])]
-        if cands:
-            rng.choice(rng.choice(cands)["anchors"]).append("idnolib")
+    if rng.random() < 0.3:
+        # anchors with an identifier on a glyph WITHOUT "public.objectLibs" (ordinary input since the repair of _getAnchorLists:
+        # no lib data; a '*' anchor there is dropped like any contextual anchor without data)
+        g = rng.choice(glyphs)
+        for a in g["anchors"]:
+            del a[3:]
+        if rng.random() < 0.5:
+            g["anchors"].insert(rng.randrange(len(g["anchors"]) + 1), _anchor(rng, "*" + rng.choice(keys).split(".")[0]))
+        for a in rng.sample(g["anchors"], min(len(g["anchors"]), rng.choice([1, 1, 2]))):
+            a.append("idnolib")
 
 
 # ------------------------------------------------------------------ implementation side
@@ -366,6 +372,8 @@ def run(case):
     except Exception as e:
         err = err_kind(e)
         obs = {"err": err}
+        if err == "KeyError":
+            obs["errMsg"] = str(e)[:80]
     abvm, notabvm = _abvm_sets(case, order)
     inp = {"glyphs": [[".notdef", []]] + [[g["name"], [_anchor_input(g, a) for a in g["anchors"]]] for g in case["glyphs"]],
            "gdef": _gdef_input(case), "quant": rat(q), "group": case["group"], "abvm": abvm, "notAbvm": notabvm, "K": K,
@@ -719,7 +727,9 @@ def classify_failure(res):
     drops the odd characters); (2) FeatureLibError because "mark2mark_<key>" is not a lexable lookup name"""
     r = res["req"]
     # crashes (KeyError) on well-formed fonts with object-lib data / contextual anchors
-    if res["model"].get("errDetail") == "KeyError:objectLibs" and r["obs"].get("err") == "KeyError":
+    # (the first one is REPAIRED: the model no longer predicts it; it is named from the observation alone, so that - listed as
+    # "fixed" in known_findings.json - a recurrence of `KeyError: 'public.objectLibs'` is reported as a VIOLATION)
+    if r["obs"].get("err") == "KeyError" and "public.objectLibs" in r["obs"].get("errMsg", ""):
         return {"finding": "anchor-identifier-without-objectLibs"}
     if res["model"].get("errDetail") == "KeyError:markClass" and r["obs"].get("err") == "KeyError":
         return {"finding": "contextual-anchor-without-mark-class"}
@@ -736,7 +746,15 @@ def classify_failure(res):
 
 def shrink(case):
     gl = case["glyphs"]
+    # a glyph that a context string or the context class names cannot be removed (feaLib would reject the font)
+    used = set(case.get("ctxclass") or [])
+    for g in gl:
+        for a in g["anchors"]:
+            if isinstance(_spec(a), dict):
+                used.update(re.findall(r"[A-Za-z_][A-Za-z0-9_.]*", _spec(a)["ctx"]))
     for i in range(len(gl)):
+        if gl[i]["name"] in used:
+            continue
         c = dict(case); c["glyphs"] = gl[:i] + gl[i + 1:]
         yield c
     for i, g in enumerate(gl):
